@@ -82,7 +82,7 @@ func runSession(r *core.Run) {
 	var ends []int
 	for i := 0; i < n; i++ {
 		pd := reqTypes[c.Intn(len(reqTypes))]
-		m := spec.Gen(c, pd, spec.GenOpt{MaxDests: 2, BinNoNul: true, MaxBody32: 100})
+		m := spec.Gen(c, pd, spec.GenOpt{MaxDests: 2, BinNoNul: true, MaxBody32: 100, BigTLV: c.Prob(1, 6)})
 		var seq uint32
 		if c.Prob(1, 3) {
 			seq = edges[c.Intn(len(edges))]
@@ -155,6 +155,9 @@ func runSession(r *core.Run) {
 	}
 	helperPackets(r, proto)
 	literalRequests(r, proto, reqTypes)
+	if c.Prob(1, 30) {
+		dispatchRetention(r, proto)
+	}
 	if len(window) == 0 {
 		return
 	}
@@ -185,7 +188,8 @@ func runSession(r *core.Run) {
 			if errors.Is(err, protocol.ErrUnsupportedPacket) {
 				r.Fail("C10", "dispatch", site, "unsupported", "the dispatcher does not know command id %#x although %s encodes it", o.reqCmd, site)
 			} else {
-				r.Event("server cannot decode %s: %v", site, err)
+				// the frame is what the library's own encoder produced for a well-formed value
+				r.Fail("C10", "dispatch", site, "refused", "the dispatcher refuses a %d-octet %s that the package itself encoded: %v", len(f), site, err)
 			}
 			continue
 		}
@@ -391,6 +395,8 @@ func runSession(r *core.Run) {
 					name = pd.Site()
 				}
 				r.Fail("C10", "dispatch", name, "unsupported", "the client's dispatcher does not know the response command id %#x that GenEmptyResponse produced", cmd)
+			} else {
+				r.Fail("C10", "dispatch", fmt.Sprintf("%#x", cmd), "refused", "the client's dispatcher refuses a generated and encoded response (command id %#x, %d octets): %v", cmd, len(f), err)
 			}
 			continue
 		}
@@ -422,6 +428,68 @@ func runSession(r *core.Run) {
 		}
 	}
 	_ = bytes.Equal
+}
+
+// dispatchRetention: a receiver keeps PDUs the dispatcher gave it (a keep-alive it has not answered yet, a submit
+// queued for a worker) while hundreds of further frames of the same command are dispatched. Every kept PDU must
+// still report and encode what it was decoded from.
+func dispatchRetention(r *core.Run, proto *spec.Proto) {
+	c := r.C
+	pd := proto.PDUs[c.Intn(len(proto.PDUs))]
+	if c.Bool() {
+		// keep-alives and other header-only types are the ones an implementation is tempted to recycle
+		for _, cand := range proto.PDUs {
+			if len(cand.Fields) == 0 && c.Prob(1, 2) {
+				pd = cand
+			}
+		}
+	}
+	n := 257 + c.Intn(300)
+	if c.Prob(1, 4) {
+		n = 1000 + c.Intn(300)
+	}
+	type kept struct {
+		pdu protocol.PDU
+		seq uint32
+		img []byte
+	}
+	var ks []kept
+	site := pd.Site()
+	for i := 0; i < n; i++ {
+		m := spec.Gen(c, pd, spec.GenOpt{MaxDests: 1, BinNoNul: true, NoTail: true, MaxBody32: 8, FixedSeq: true})
+		seq := uint32(i)*2654435761 + 17
+		for w := range m.Seq {
+			m.Seq[w] = seq + uint32(w)
+		}
+		img, _ := spec.Build(m)
+		var pdu protocol.PDU
+		var err error
+		if p := r.Call("Decode"+proto.Name, func() { pdu, err = dispatcher[proto.Name](img) }); p != nil {
+			r.Fail("C10", "panic", p.Frame, p.Kind, "dispatcher: %s", p.Value)
+			return
+		}
+		if err != nil || pdu == nil {
+			return // types the dispatcher does not know are judged elsewhere
+		}
+		if i < 4 || c.Prob(1, 16) {
+			var b []byte
+			r.Call(site+".IEncode", func() { b, _ = pdu.IEncode() })
+			ks = append(ks, kept{pdu, pdu.GetSequenceID(), b})
+		}
+	}
+	r.Probe("dispatched_pdus_retained")
+	for i, k := range ks {
+		if k.pdu.GetSequenceID() != k.seq {
+			r.Fail("C10", "dispatch", site, "changed-later", "kept PDU %d of %d: GetSequenceID() was %d when it was dispatched and is %d after %d further frames", i, len(ks), k.seq, k.pdu.GetSequenceID(), n)
+			return
+		}
+		var b []byte
+		var err error
+		if p := r.Call(site+".IEncode", func() { b, err = k.pdu.IEncode() }); p == nil && err == nil && !bytes.Equal(b, k.img) {
+			r.Fail("C10", "dispatch", site, "changed-later", "kept PDU %d of %d encodes differently after %d further frames were dispatched", i, len(ks), n)
+			return
+		}
+	}
 }
 
 // checkSetSeq: on a PDU obtained from the library, setting a sequence number is visible through the getter and
